@@ -48,41 +48,150 @@ def pick_percent(rng, n):
     return rng.random()
 
 
-def gen_case(rng, cid, known_region=False):
-    strat = rng.choice([0, 1, 2, 2])
-    retry = rng.choice([1, 50, 500, 1000, 3000])
-    minreq = rng.choice([0, 0, 1, 2, 5])
-    interval = rng.choice([100, 1000, 1000, 10000])
-    bc = rng.choice([0, 1, 2, 10, 3, 5])
-    maxrt = rng.choice([0, 5, 50])
-    if strat == 2:
-        thr = float(rng.choice([0, 1, 1, 2, 3]))
+
+class R:
+    """the rule of one resource as the generator tracks it"""
+
+    def __init__(self, name, strat, retry, minreq, interval, bc, maxrt, thr, probe, pe, active):
+        self.name, self.strat, self.retry, self.minreq, self.interval = name, strat, retry, minreq, interval
+        self.bc, self.maxrt, self.thr, self.probe, self.pe, self.active = bc, maxrt, thr, probe, pe, active
+
+    def load(self):
+        return (f"load {self.name} {self.strat} {self.retry} {self.minreq} {self.interval} {self.bc} {self.maxrt} "
+                f"{fb(self.thr)} {self.probe} {fb(self.pe)} {self.active}")
+
+    def change_cb(self, rng):
+        """change exactly one field of the breaker part (never to a threshold within Float64Equals of the old one)"""
+        f = rng.choice(["thr", "thr", "retry", "minreq", "probe", "maxrt", "bc", "interval", "strategy"])
+        if f == "thr":
+            if self.strat == 2:
+                self.thr = float(rng.choice([x for x in (0, 1, 2, 3, 5) if x != self.thr]))
+            else:
+                self.thr = rng.choice([x for x in (0.0, 0.3, 0.5, 0.8, 1.0) if abs(x - self.thr) > 0.05])
+        elif f == "retry":
+            self.retry = rng.choice([x for x in (1, 50, 500, 1000, 3000, 60000) if x != self.retry])
+        elif f == "minreq":
+            self.minreq = rng.choice([x for x in (0, 1, 2, 5) if x != self.minreq])
+        elif f == "probe":
+            self.probe = rng.choice([x for x in (0, 1, 2, 3) if x != self.probe])
+        elif f == "maxrt":          # breaker-relevant for the slow-request strategy only (else the old breakers are kept)
+            self.maxrt = rng.choice([x for x in (0, 5, 50) if x != self.maxrt])
+        elif f == "bc":
+            self.bc = rng.choice([x for x in (0, 1, 2, 10, 3, 5) if x != self.bc])
+        elif f == "interval":
+            self.interval = rng.choice([x for x in (100, 1000, 10000) if x != self.interval])
+        else:
+            old = self.strat
+            self.strat = rng.choice([x for x in (0, 1, 2) if x != old])
+            if self.strat == 2:
+                self.thr = float(rng.choice([1, 2, 3]))
+            elif old == 2:
+                self.thr = rng.choice([0.3, 0.5, 1.0])
+        return f
+
+    def L(self):
+        return self.interval // (self.bc if self.bc and self.interval % self.bc == 0 else 1)
+
+
+def gen_call(rng, R_, a, bad):
+    """one request to address a with a bad (slow / failing) or good outcome under rule R_; returns (op, rt)"""
+    if R_.strat == 0:
+        rt = rng.choice([R_.maxrt + 1, R_.maxrt + 100]) if bad else rng.choice([0, R_.maxrt])
+        oc = rng.choice(["ok", "err"]) if rng.random() < 0.2 else "ok"
     else:
-        thr = rng.choice([0.0, 0.3, 0.5, 0.5, 1.0])
-    probe = rng.choice([0, 1, 1, 2, 3])
-    active = rng.choice([0, 0, 1])
+        rt = rng.choice([0, 0, 1, 7, 100])
+        oc = "err" if bad else "ok"
+    return f"call {R_.name} {a} {oc} {rt}", rt
+
+
+def random_rule(rng, name, nn):
+    strat = rng.choice([0, 1, 2, 2])
+    thr = float(rng.choice([0, 1, 1, 2, 3])) if strat == 2 else rng.choice([0.0, 0.3, 0.5, 0.5, 1.0])
+    return R(name, strat, rng.choice([1, 50, 500, 1000, 3000]), rng.choice([0, 0, 1, 2, 5]), rng.choice([100, 1000, 1000, 10000]),
+             rng.choice([0, 1, 2, 10, 3, 5]), rng.choice([0, 5, 50]), thr, rng.choice([0, 1, 1, 2, 3]), pick_percent(rng, nn),
+             rng.choice([0, 0, 1]))
+
+
+def gen_recycle_scenario(rng, cid):
+    """eject + schedule some nodes, then (often) reload the rule — identical / percent or recovery fields only / one breaker
+    field changed (rebuilds every breaker Closed) — let scheduled nodes complete successfully (or not), fire their recycle
+    timers, look at the node count again."""
+    nn = rng.choice([1, 2, 2, 3, 4, 6])
+    strat = rng.choice([1, 2, 2, 0])
+    thr = 1.0 if strat == 2 else 0.5
+    ru = R("r", strat, rng.choice([50, 1000, 60000]), rng.choice([0, 1]), rng.choice([1000, 10000]), rng.choice([0, 1, 2]),
+           5, thr, rng.choice([1, 1, 2, 0]), rng.choice([0.5, 1.0, 1.0, pick_percent(rng, nn)]), rng.choice([0, 0, 1]))
+    ops = [ru.load()]
+    now = T0
+    addrs = [f"n{i}" for i in range(nn)]
+    dead = [a for a in addrs if rng.random() < 0.7] or [addrs[0]]
+    for a in addrs:
+        for _ in range(rng.choice([1, 2])):
+            o, rt = gen_call(rng, ru, a, a in dead)
+            now += rt
+            ops.append(o)
+    ops.append("probe r")                      # the outliers are handed to the recycler here
+    kind = rng.choice(["cb", "cb", "cb", "same", "pe", "active", "none"])
+    if kind == "cb":
+        ru.change_cb(rng)
+    elif kind == "pe":
+        ru.pe = pick_percent(rng, nn)
+    elif kind == "active":
+        ru.active = 1 - ru.active
+    if kind != "none":
+        ops.append(ru.load())
+    if rng.random() < 0.5:
+        now += rng.choice([1, ru.retry, ru.retry + 1])
+        ops.append(f"clock {now}")
+    healed = []
+    for a in dead:
+        r = rng.random()
+        if r < 0.6:
+            for _ in range(rng.choice([1, 1, 2, 3])):
+                o, rt = gen_call(rng, ru, a, False)
+                now += rt
+                ops.append(o)
+            healed.append(a)
+        elif r < 0.7 and ru.active:
+            ops.append(f"retry r {a} 0")
+        elif r < 0.8:
+            o, rt = gen_call(rng, ru, a, True)
+            now += rt
+            ops.append(o)
+    if rng.random() < 0.3:
+        ops.append("probe r")
+    for a in rng.sample(addrs, len(addrs)):
+        if a in dead or rng.random() < 0.3:
+            ops.append(f"recycle r {a}")
+    ops.append("probe r")
+    for a in addrs[:2]:
+        o, rt = gen_call(rng, ru, a, rng.random() < 0.5)
+        ops.append(o)
+    ops.append("probe r")
+    return Case(cid, ops, tags=("recycle-scenario", kind))
+
+
+def gen_case(rng, cid, known_region=False):
     nn = rng.choice([0, 1, 1, 2, 3, 3, 4, 5, 7, 10, 16, rng.randint(0, 40)])
+    ru = random_rule(rng, "r", nn)
     if known_region:
         # all nodes dead, percent = the double just below k/n whose product rounds up to k
-        strat, thr, minreq, probe = 2, 1.0, 0, 1
+        ru.strat, ru.thr, ru.minreq, ru.probe = 2, 1.0, 0, 1
         nn = rng.choice([3, 5, 6, 7, 9, 10, 11, 12, 13, 14, 15, 20, 25, 30])
         cands = []
         for k in range(1, nn):
             for p in (k / nn, math.nextafter(k / nn, 0.0)):
                 if int(nn * p) > math.floor(nn * Fraction(p)):      # binary64 product rounds up past the exact floor
                     cands.append(p)
-        pe = rng.choice(cands) if cands else 1 / 3
-    else:
-        pe = pick_percent(rng, nn)
-    cb = f"{strat} {retry} {minreq} {interval} {bc} {maxrt} {fb(thr)} {probe}"
-    ops = [f"load r {cb} {fb(pe)} {active}"]
+        ru.pe = rng.choice(cands) if cands else 1 / 3
+    ops = [ru.load()]
     # sometimes a second resource with its own rule over the same addresses (per-resource isolation)
-    rules = {"r": [cb, pe, active, strat, maxrt]}
+    rules = {"r": ru}
     if not known_region and rng.random() < 0.12:
-        strat2 = rng.choice([1, 2])
-        cb2 = f"{strat2} {rng.choice([1, 50, 1000])} 0 1000 {rng.choice([0, 2])} 0 {fb(1.0)} {rng.choice([0, 1, 2])}"
-        rules["s"] = [cb2, pick_percent(rng, nn), rng.choice([0, 1]), strat2, 0]
-        ops.append(f"load s {cb2} {fb(rules['s'][1])} {rules['s'][2]}")
+        s2 = rng.choice([1, 2])
+        rules["s"] = R("s", s2, rng.choice([1, 50, 1000]), 0, 1000, rng.choice([0, 2]), 0, 1.0, rng.choice([0, 1, 2]),
+                       pick_percent(rng, nn), rng.choice([0, 1]))
+        ops.append(rules["s"].load())
     addrs = [f"n{i}" for i in range(nn)]
     # failure profile per node: probability of a bad completion
     prof = {}
@@ -92,45 +201,45 @@ def gen_case(rng, cid, known_region=False):
         for a in addrs:
             prof[a] = 1.0                      # many nodes, all failing
     now = T0
-    L = interval // (bc if bc and interval % bc == 0 else 1)
     nops = rng.randint(5, 30) + 2 * nn
     seen = {name: [] for name in rules}
     names = sorted(rules)
     for i in range(nops):
         r = rng.random()
         res = rng.choice(names)
-        rcb, rpe, ract, rstrat, rmaxrt = rules[res]
+        cur = rules[res]
         sn = seen[res]
         if r < 0.22:
-            d = rng.choice([0, 1, max(0, retry - 1), retry, retry + 1, L, interval, interval + 1, 2 * interval, rng.randint(0, 2 * retry)])
+            d = rng.choice([0, 1, max(0, cur.retry - 1), cur.retry, cur.retry + 1, cur.L(), cur.interval, cur.interval + 1,
+                            2 * cur.interval, rng.randint(0, 2 * cur.retry)])
             now += d
             ops.append(f"clock {now}")
-        elif r < 0.75 and addrs:
+        elif r < 0.73 and addrs:
             # first touch the not-yet-seen addresses, then random ones
             a = addrs[len(sn)] if len(sn) < nn and addrs[len(sn)] not in sn and rng.random() < 0.7 else rng.choice(addrs)
             if a not in sn:
                 sn.append(a)
-            bad = rng.random() < prof[a]
-            if rstrat == 0:
-                rt = rng.choice([rmaxrt + 1, rmaxrt + 100]) if bad else rng.choice([0, rmaxrt])
-                oc = rng.choice(["ok", "err"]) if rng.random() < 0.2 else "ok"
-            else:
-                rt = rng.choice([0, 0, 1, 7, 100])
-                oc = "err" if bad else "ok"
+            o, rt = gen_call(rng, cur, a, rng.random() < prof[a])
             now += rt
-            ops.append(f"call {res} {a} {oc} {rt}")
-        elif r < 0.87:
+            ops.append(o)
+        elif r < 0.84:
             ops.append(f"probe {res}")
-        elif r < 0.92 and sn:
+        elif r < 0.90 and sn:
             ops.append(f"recycle {res} {rng.choice(sn)}")
-        elif r < 0.96 and sn and ract:
-            ops.append(f"retry {res} {rng.choice(sn)} {rng.choice([0, 1, rmaxrt + 1])}")
+        elif r < 0.93 and sn and cur.active:
+            ops.append(f"retry {res} {rng.choice(sn)} {rng.choice([0, 1, cur.maxrt + 1])}")
         elif r < 0.99 and not known_region:
-            if rng.random() < 0.5:
-                rules[res][2] = 1 - ract
+            # reload in the middle of the history
+            k = rng.random()
+            if k < 0.15:
+                pass                                    # identical
+            elif k < 0.35:
+                cur.active = 1 - cur.active
+            elif k < 0.55:
+                cur.pe = pick_percent(rng, nn)
             else:
-                rules[res][1] = pick_percent(rng, nn)
-            ops.append(f"load {res} {rcb} {fb(rules[res][1])} {rules[res][2]}")
+                cur.change_cb(rng)                      # one breaker field: every node breaker is rebuilt Closed
+            ops.append(cur.load())
         else:
             ops.append(f"probe {res}")
     for name in names:
@@ -145,7 +254,11 @@ def gen(ctx, n):
     out = []
     for _ in range(n):
         _ctr[0] += 1
-        out.append(gen_case(ctx.rng, f"g{_ctr[0]}", known_region=(ctx.rng.random() < 0.06)))
+        x = ctx.rng.random()
+        if x < 0.15:
+            out.append(gen_recycle_scenario(ctx.rng, f"g{_ctr[0]}"))
+        else:
+            out.append(gen_case(ctx.rng, f"g{_ctr[0]}", known_region=(x < 0.21)))
     return out
 
 
@@ -172,8 +285,19 @@ DIST = collections.Counter()
 def nontrivial(case, impl):
     sig = []
     interesting = False
+    loads = {}
     for l in impl:
         op, _, r = l.partition(" => ")
+        if op.startswith("load "):
+            t = op.split()
+            old = loads.get(t[1])
+            if old is not None:
+                DIST["reloads"] += 1
+                DIST["reloads changing the breaker part"] += old[2:10] != t[2:10]
+                DIST["reloads identical"] += old == t
+            loads[t[1]] = t
+        if op.startswith("recycle "):
+            DIST["recycle ops"] += 1
         if not (op.startswith("call ") or op.startswith("probe ")):
             continue
         f = dict(x.split("=", 1) for x in r.split(" ") if "=" in x)
